@@ -59,6 +59,10 @@ class ChannelItem(EFLRItem, DimensionedItem):
             **kwargs        :   Values of to be set as characteristics of the ChannelItem Attributes.
         """
 
+        if cast_dtype is not None:
+            # check it before the item is registered with its parent (which is done in super().__init__)
+            ReprCodeConverter.validate_numpy_dtype(cast_dtype)
+
         # need the attribute defined for representation code check
         self._cast_dtype: Union[numpy_dtype_type, None] = None
         self._cast_dtype_from_data = False  # True if cast dtype was not specified by the user, but taken from data
